@@ -335,6 +335,8 @@ def _run_git(case, obs):
         obs.cls("git:tags-present")
     if prior_local or local_only:
         obs.cls("git:local-branches-from-earlier-runs")
+    if case.get("lookalike"):
+        obs.cls("git:on-lookalike-branch")
 
     td = tempfile.mkdtemp(prefix="verif-c15-")
     saved_env = {k: os.environ.get(k) for k in list(_GIT_ENV) + ["HOME"]}
@@ -361,6 +363,13 @@ def _run_git(case, obs):
             for b in local_only:
                 sha = _git("-C", repo_dir, "commit-tree", "-m", f"heads/{b}", "HEAD^{tree}")
                 _git("-C", repo_dir, "update-ref", f"refs/heads/{b}", sha)
+        if case.get("first_version") is not None:
+            # an earlier run for another version: whatever state Rally itself left behind is a legitimate starting point
+            try:
+                r.update(case["first_version"])
+            except exceptions.RallyError:
+                pass
+            obs.cls("git:second-update")
         error = None
         try:
             r.update(version)
@@ -493,7 +502,7 @@ def _pure_case(draw, known):
 @st.composite
 def _git_case(draw, known):
     version = draw(_version())
-    mode = draw(st.sampled_from(["git-local", "git-remote", "git-remote"]))
+    mode = draw(st.sampled_from(["git-local", "git-remote"]))
     # no branch called v<something>: it would be ambiguous with a tag of the same name
     branches = [b for b in draw(_branch_set(version, not core.signature_matches(F2, known), force_master=True)) if not b.startswith("v")]
     case = {"mode": mode, "branches": list(branches), "version": version}
@@ -507,6 +516,21 @@ def _git_case(draw, known):
     case["tags"] = tags
     if mode == "git-local":
         case["current"] = draw(st.sampled_from(branches))
+        if draw(st.integers(0, 3)):
+            # the repository sits on a branch whose name merely ends with (or starts like) the branch that should be chosen, e.g. on 1.7 / 7.7
+            # when 7 is wanted: an earlier run for another version leaves it there
+            w = reference(branches, version)["winner"]
+            if w and w != "master":
+                look = [b for b in branches if b != w and (b.endswith(w) or b.startswith(w))]
+                for c in (f"1.{w}", f"{w.split('.')[0]}.{w}", f"{w}.0"):
+                    if c not in branches and _parse_branch(c) is not None and reference(list(branches) + [c], version)["winner"] == w:
+                        look.append(c)
+                if look:
+                    cur = draw(st.sampled_from(look))
+                    if cur not in case["branches"]:
+                        case["branches"].append(cur)
+                    case["current"] = cur
+                    case["lookalike"] = True
     else:
         others = [b for b in branches if b != "master"]
         case["prior_local"] = draw(st.lists(st.sampled_from(others), max_size=2, unique=True)) if others and draw(st.booleans()) else []
@@ -515,13 +539,16 @@ def _git_case(draw, known):
             cand = draw(st.sampled_from([_name(vp[0]), _name(vp[0], vp[1]), _name(max(vp[0] - 1, 0))]))
             if cand not in branches:
                 case["local_only"] = [cand]
+    if vp and draw(st.integers(0, 2)) == 0:
+        # the checked update follows an earlier one for a nearby version
+        near = [f"{vp[0]}.{vp[1] + 1}.0", f"{vp[0]}.{max(vp[1] - 1, 0)}.{vp[2]}", f"{vp[0] + 1}.0.0", f"{max(vp[0] - 1, 0)}.17.3", f"1.7.3", f"{vp[0]}.{vp[0]}.1"]
+        case["first_version"] = draw(st.sampled_from(near))
     return case
 
 
 def strategy(tier, known):
-    if tier == "thorough":
-        return st.integers(0, 59).flatmap(lambda k: _git_case(known) if k == 0 else _pure_case(known))
-    return _pure_case(known)
+    every = 60 if tier == "thorough" else 20
+    return st.integers(0, every - 1).flatmap(lambda k: _git_case(known) if k == 0 else _pure_case(known))
 
 
 # ------------------------------------------------------------------------------------------------ exhaustive sub-domain
